@@ -10,7 +10,8 @@ runs under the race detector carry that part) — hence `C15_cache_atomic` assum
 `stringCache.lookup` is one atomic step (its mutex).
 Helper lemmas are in LA/Proofs/CoalesceHeap.lean.
 -/
-import LA.Proofs.CoalesceHeap
+import LA.Proofs.CoalesceLink
+import LA.Proofs.CoalesceOrder
 
 namespace LA.Coalesce
 
@@ -30,17 +31,6 @@ theorem C15_path_index_nonneg : ∀ n ∈ genTables.norms, 0 ≤ n.objectPathInd
 theorem C15_init_wf : HeapWF (Heap.init genTables) := init_wf genTables C15_tables_full
 
 /-! ### frame -/
-
-theorem fill_wf {h : Heap} (hw : HeapWF h) (ids : List Nat) : HeapWF (fill h ids) := hw.mono (fill_hframe ids h)
-
-theorem coalesceH_hframe (T : Tables) (h : Heap) (hw : HeapWF h) (ids : List Nat) :
-    HFrame h (coalesceH T h ids).1 := by
-  have h1 := fill_hframe (touched (kept ids (ids.map (viewAt h)))) h
-  have h2 := (ecsSlices_spec _ (fill_wf hw (touched (kept ids (ids.map (viewAt h)))))
-    (normChoice T (ids.map (viewAt h)))).1
-  unfold coalesceH
-  simp only
-  split <;> exact h1.trans h2
 
 /-- **Frame.**  `CoalesceMessages` writes nothing that existed before the call except empty
 message caches, which it fills with that message's own parse result: every message keeps its
@@ -63,23 +53,12 @@ theorem C15_inputs_intact (T : Tables) (h : Heap) (hw : HeapWF h) (ids : List Na
     obsAt (coalesceH T h ids).1 i = obsAt h i ∧ viewAt (coalesceH T h ids).1 i = viewAt h i :=
   ⟨(coalesceH_hframe T h hw ids).obs_eq i, (coalesceH_hframe T h hw ids).view_eq i⟩
 
-/-- an event whose slices can be read in `h` (true of every event `coalesceH` returned, see
-`C15_returned_valid`). -/
-def EventValid (h : Heap) (eh : EventH) : Prop := SliceValid h eh.cat ∧ SliceValid h eh.typ
-
-theorem deref_frame {h h' : Heap} (hf : HFrame h h') {eh : EventH} (hv : EventValid h eh) :
-    deref h' eh = deref h eh := by
-  unfold deref
-  rw [readSlice_frame hf hv.1, readSlice_frame hf hv.2]
-  have hp : eh.pathRefs.map (fun i => ((obsAt h' i).data).getD []) =
-      eh.pathRefs.map (fun i => ((obsAt h i).data).getD []) := by
-    apply List.map_congr_left
-    intro i _
-    rw [hf.obs_eq i]
-  rw [hp]
-  cases eh.tagRef with
-  | none => rfl
-  | some i => simp only; rw [hf.obs_eq i]
+/-- `EventValid h eh` (Proofs/CoalesceHeap.lean), spelled out: both slices of the event can be
+read in `h` — they are empty or their backing array exists.  True of every event `coalesceH`
+returned (`C15_returned_valid`) and kept by later calls (`C15_isolation`). -/
+theorem C15_event_valid_iff (h : Heap) (eh : EventH) :
+    EventValid h eh ↔ ((eh.cat.len = 0 ∨ eh.cat.cell < h.arrs.length) ∧
+                       (eh.typ.len = 0 ∨ eh.typ.cell < h.arrs.length)) := Iff.rfl
 
 /-- **Isolation.**  An event returned earlier reads exactly the same after any later
 `CoalesceMessages` call (on the same or on other messages), and stays readable. -/
@@ -111,28 +90,29 @@ theorem C15_resolve_frame (L : Lookups) (eh : EventH) :
     (∀ h, EventValid h eh → EventValid h (resolveH L eh)) :=
   ⟨rfl, rfl, rfl, rfl, rfl, fun _ hv => hv⟩
 
+/-! ### the heap model agrees with the pure model -/
+
+/-- reading a table slice of the initial heap gives the normalisation's values. -/
+theorem C15_init_tables_ok : TablesOK genTables (Heap.init genTables) := init_tables_ok genTables
+
+/-- the two heap invariants hold along every history: they hold initially (`C15_init_wf`,
+`C15_init_tables_ok`) and are kept by creating messages and by `CoalesceMessages`
+(`ResolveIDs` does not touch the heap). -/
+theorem C15_invariants (T : Tables) (h : Heap) (hw : HeapWF h) (hok : TablesOK T h) :
+    (∀ ids, HeapWF (coalesceH T h ids).1 ∧ TablesOK T (coalesceH T h ids).1) ∧
+    (∀ v, HeapWF (h.newMsg v).1 ∧ TablesOK T (h.newMsg v).1) :=
+  ⟨fun ids => ⟨hw.mono (coalesceH_hframe T h hw ids), hok.mono (coalesceH_hframe T h hw ids) hw⟩,
+   fun v => ⟨newMsg_wf hw v, fun i => hok i⟩⟩
+
+/-- **The event `coalesceH` returns, read through the heap it leaves, is exactly the event
+the pure model `coalesce` (the subject of the C09 theorems) computes from what the messages
+report** — or the same error.  So the references an event holds (message maps in `Paths`, the
+`Tags` slice, table-backed `Category`/`Type` slices) read as the plain values. -/
+theorem C15_deref_pure (T : Tables) (h : Heap) (hw : HeapWF h) (hok : TablesOK T h) (ids : List Nat) :
+    derefO (coalesceH T h ids).1 (coalesceH T h ids).2 = coalesce T (ids.map (viewAt h)) :=
+  coalesceH_deref T h hw hok ids
+
 /-! ### repeatable -/
-
-def derefO (h : Heap) : Outcome EventH → Outcome Event
-  | .ok eh => .ok (deref h eh)
-  | .err x => .err x
-  | .panic => .panic
-
-/-- `deref` as a function of the five things it reads. -/
-def mkDeref (core : Event) (paths : List KV) (tags cat typ : List Bytes) : Event :=
-  { core with paths := paths, tags := tags, ecsCategory := cat, ecsType := typ }
-
-theorem deref_eq (h : Heap) (eh : EventH) :
-    deref h eh = mkDeref eh.core (eh.pathRefs.map (fun i => ((obsAt h i).data).getD []))
-      (match eh.tagRef with | some i => (obsAt h i).tags | none => []) (readSlice h eh.cat) (readSlice h eh.typ) := rfl
-
-theorem deref_congr {h1 h2 : Heap} {a b : EventH} (hc : a.core = b.core)
-    (hp : a.pathRefs.map (fun i => ((obsAt h1 i).data).getD []) = b.pathRefs.map (fun i => ((obsAt h2 i).data).getD []))
-    (ht : (match a.tagRef with | some i => (obsAt h1 i).tags | none => []) =
-          (match b.tagRef with | some i => (obsAt h2 i).tags | none => []))
-    (hcat : readSlice h1 a.cat = readSlice h2 b.cat) (htyp : readSlice h1 a.typ = readSlice h2 b.typ) :
-    deref h1 a = deref h2 b := by
-  rw [deref_eq, deref_eq, hc, hp, ht, hcat, htyp]
 
 /-- **Repeatable.**  Coalescing the same messages again, in the heap the first call left
 (caches now filled, arrays possibly added), yields an event that reads exactly as the first
@@ -176,12 +156,11 @@ theorem C15_repeatable (T : Tables) (h : Heap) (hw : HeapWF h) (ids : List Nat) 
     · apply List.map_congr_left
       intro i _
       rw [hfin.obs_eq i]
-    · cases primaryOf (kept ids (ids.map (viewAt h))) with
+    · show tagsRead _ (tagRefOf _) = tagsRead h' (tagRefOf _)
+      unfold tagsRead
+      cases tagRefOf (kept ids (ids.map (viewAt h))) with
       | none => rfl
-      | some p =>
-        by_cases hd : p.2.data.isSome = true
-        · simp only [hd, if_true]; rw [hfin.obs_eq]
-        · simp only [hd]; rfl
+      | some i => simp only; rw [hfin.obs_eq]
     · show readSlice _ (ecsSlices _ _).2.1 = readSlice h' (ecsSlices _ _).2.1
       rw [hs2.2.2.2.1, catValue_frame hmid hwfill1]
       have := hs1.2.2.2.1
@@ -194,31 +173,6 @@ theorem C15_repeatable (T : Tables) (h : Heap) (hw : HeapWF h) (ids : List Nat) 
       exact this.symm
 
 /-! ### no panic -/
-
-theorem selectPath_some (paths : List KV) (hint : Int) (hp : paths ≠ []) (hh : 0 ≤ hint) :
-    selectPath paths hint ≠ none := by
-  unfold selectPath
-  simp only
-  have hlen : 0 < paths.length := List.length_pos_iff.mpr hp
-  by_cases hc : (paths.length : Int) > hint
-  · simp only [hc, if_true]
-    have : ¬ hint < 0 := by omega
-    simp only [this, if_false]
-    have hlt : hint.toNat < paths.length := by omega
-    rw [List.getElem?_eq_getElem hlt]
-    simp
-  · simp only [hc, if_false]
-    have : ¬ (0 : Int) < 0 := by omega
-    simp only [this, if_false, Int.toNat_zero]
-    rw [List.getElem?_eq_getElem hlen]
-    simp
-
-theorem normAt_nonneg (T : Tables) (hT : ∀ n ∈ T.norms, 0 ≤ n.objectPathIndex) (i : Nat) :
-    0 ≤ (normAt T i).objectPathIndex := by
-  unfold normAt
-  cases hn : T.norms[i]? with
-  | none => simp only [Option.getD_none]; decide
-  | some n => exact hT n (List.mem_of_getElem? hn)
 
 /-- **No panic.**  For any table set without negative path indexes (true of the regenerated
 tables: `C15_path_index_nonneg`) `CoalesceMessages` returns an event or an error for every
@@ -294,6 +248,49 @@ theorem C15_cache_atomic (f : Bytes → Bytes) (exp : Int) (c : Cache) (hc : Cac
     have h2 := ih (Cache.lookup f exp c k t1 t2).1 h1.2
     simp only [Cache.run, List.map_cons]
     exact ⟨by rw [h1.1, h2.1], h2.2⟩
+
+/-! ### Go's map iteration order
+
+`CoalesceMessages` ranges over the messages' `Data()` maps; Go visits map entries in a
+different order on every call, so "coalescing again yields an equal event" needs the loops to
+be insensitive to that order.  The model folds over association lists; a Go map in two
+iteration orders is a list `d` and a permutation `d'` of it (keys distinct). -/
+
+/-- the loop of `newEvent` (User.IDs, User.SELinux, Data are maps: equal as lookup functions;
+every other field is not touched by the loop at all). -/
+theorem C15_order_newEvent (d d' : KV) (hp : d.Perm d') (hn : NoDupKeys d) (e : Event) (k : Bytes) :
+    lookup k (d'.foldl distribute e).ids = lookup k (d.foldl distribute e).ids ∧
+    lookup k (d'.foldl distribute e).data = lookup k (d.foldl distribute e).data ∧
+    lookup k (d'.foldl distribute e).selinux = lookup k (d.foldl distribute e).selinux ∧
+    (d'.foldl distribute e).result = (d.foldl distribute e).result ∧
+    (d'.foldl distribute e).session = (d.foldl distribute e).session ∧
+    (d'.foldl distribute e).warnings = (d.foldl distribute e).warnings := by
+  have hn' := hn.perm hp
+  have ho := foldl_distribute_other d e
+  have ho' := foldl_distribute_other d' e
+  refine ⟨?_, ?_, ?_, by rw [ho.1, ho'.1], by rw [ho.2.1, ho'.2.1],
+    by rw [ho.2.2.2.2.2.2.2.2.2.1, ho'.2.2.2.2.2.2.2.2.2.1]⟩
+  · rw [foldl_distribute_ids d hn, foldl_distribute_ids d' hn', lookup_perm hp hn]
+  · rw [foldl_distribute_data d hn, foldl_distribute_data d' hn', lookup_perm hp hn]
+  · -- a label k is written only for the record key "subj_" ++ k
+    have hpre : hasPrefix kSubj_ (kSubj_ ++ k) = true := by
+      unfold hasPrefix
+      exact List.isPrefixOf_iff_prefix.mpr (List.prefix_append _ _)
+    have hdrop : (kSubj_ ++ k).drop 5 = k := by simp [kSubj_]
+    have h1 := foldl_distribute_selinux d hn e (kSubj_ ++ k) hpre
+    have h2 := foldl_distribute_selinux d' hn' e (kSubj_ ++ k) hpre
+    rw [hdrop] at h1 h2
+    rw [h1, h2, lookup_perm hp hn]
+
+/-- the loops of `addFieldsToEventData` and `addSockaddrRecord` (first value of a key kept,
+later ones warned about): Data and Warnings are the same up to order. -/
+theorem C15_order_addFields (typ : Nat) (d d' : KV) (hp : d.Perm d') (hn : NoDupKeys d) (e : Event) :
+    ((d'.foldl (addField typ) e).data).Perm ((d.foldl (addField typ) e).data) ∧
+    ((d'.foldl (addField typ) e).warnings).Perm ((d.foldl (addField typ) e).warnings) := by
+  have h1 := foldl_addField_closed typ d hn e
+  have h2 := foldl_addField_closed typ d' (hn.perm hp) e
+  rw [h1.1, h1.2, h2.1, h2.2]
+  exact ⟨List.Perm.append_left _ (hp.symm.filter _), List.Perm.append_left _ ((hp.symm.filter _).map _)⟩
 
 /-! ### non-vacuity, and what the `cap = len` hypothesis excludes -/
 
